@@ -41,6 +41,10 @@
      Notify i     Session.Parse reached echoNotify(i): if table[i] exists: msgRecv = true,
                   close(wakeup), delete(table, i) — whatever the owner is doing (also during its send).
      Skip         Session.Parse of a frame that does not reach echoNotify (no access to the table).
+     CloseSession k   Session.Close of session k.  The waiter table is PROCESS-wide (one table for all
+                  sessions of the process: Begin, Notify and End are the same whichever session makes the
+                  call or parses the frame); Close does not touch it: pings pending on this or on any other
+                  session stay registered and end by their reply or their timer.
      Tick t       time passes: clock := t (t >= clock).
      Timeout p    the timer of call p fires: enabled once clock >= (instant the select started) +
                   (normalised timeout).
@@ -141,6 +145,7 @@ Inductive event : Set :=
 | BulkFail (n : N)
 | Notify (i : id)
 | Skip
+| CloseSession (k : nat)
 | Tick (t : Z)
 | Timeout (p : pid)
 | End (p : pid).
@@ -215,6 +220,7 @@ Definition step (fix24 : bool) (s : state) (e : event) : res state :=
           end
       end
   | Skip => Ok s
+  | CloseSession _ => Ok s
   | Tick t =>
       if (clock s <=? t)%Z then Ok (mkState (tbl s) (next s) (pings s) (cnt s) t) else Err EOther
   | Timeout p =>
